@@ -72,6 +72,38 @@ func vxGen(depth, natoms int, binLeafOnly bool) *vxG {
 	return g
 }
 
+// vxGenRep builds the family "repetition of a multi-token operand": U(x y), U(x y) z, z U(x y) and
+// U(x ++ y) z with U in {*, +, ?} and x, y, z in {IDENT, INT, "+"}: the operand of the repetition can
+// fail after it has consumed tokens, which is where partial iterations must not count.
+func vxGenRep() *vxG {
+	atom := func() *vxG { return &vxG{kind: vxgAtom, atom: []int{vxaIDENT, vxaINT, vxaPLUS}[vxConcrete(vxIntRange(0, 2))]} }
+	inner := &vxG{kind: vxgSeq, a: atom(), b: atom()}
+	if vxConcrete(vxIntRange(0, 1)) == 0 {
+		inner.kind = vxgAdjoin
+	}
+	u := &vxG{kind: []int{vxgStar, vxgPlus, vxgOpt}[vxConcrete(vxIntRange(0, 2))], a: inner}
+	switch vxConcrete(vxIntRange(0, 2)) {
+	case 0:
+		return u
+	case 1:
+		return &vxG{kind: vxgSeq, a: u, b: atom()}
+	}
+	return &vxG{kind: vxgSeq, a: atom(), b: u}
+}
+
+// vxGenChoiceSeq builds the family "choice between multi-token alternatives": (x y | z w) and
+// (x y | z w | v) with atoms in {IDENT, INT, "+", "x"}: the first alternative can fail after its first
+// token matched, and a later alternative must still be tried.
+func vxGenChoiceSeq() *vxG {
+	atom := func() *vxG { return &vxG{kind: vxgAtom, atom: []int{vxaIDENT, vxaINT, vxaPLUS, vxaKW}[vxConcrete(vxIntRange(0, 3))]} }
+	s1 := &vxG{kind: vxgSeq, a: atom(), b: atom()}
+	s2 := &vxG{kind: vxgSeq, a: atom(), b: atom()}
+	if vxConcrete(vxIntRange(0, 1)) == 0 {
+		return &vxG{kind: vxgChoice, a: s1, b: s2}
+	}
+	return &vxG{kind: vxgChoice3, a: s1, b: s2, c: atom()}
+}
+
 var vxAtomText = []string{"IDENT", "INT", "\"+\"", "\"\"", "\"x\"", "b", "a"}
 
 func (g *vxG) text() string {
